@@ -114,9 +114,14 @@ SEED_EXPECT={
  "C06-5":"R-FLOW/memokey","C07-5":"R-PROV/entityname","C08-5":"R-WIRE/W2","C09-5":"R-WHO/fmttext","C10-5":"R-LOCK/pool",
  "C11-5":"R-POS/lexer","C12-5":"R-SYM/S10","C13-5":"R-PROV/V7","C14-5":"R-DET/N3s","C15-5":"R-SYM/S5x",
  "C16-5":"R-SYM/verbbody","C17-5":"R-FLOW/pathseg","C18-5":"R-TERM/T2","C19-5":"R-WHO/fmttext","C20-5":"R-FLOW/align",
+ "C01-6":"R-LOCK/poolalias","C02-6":"R-PROV/filename","C03-6":"R-CONST/leniency","C04-6":"R-COVER/present","C05-6":"R-COVER/detached",
+ "C06-6":"R-PANIC/P6","C07-6":"R-PROV/mainfirst","C08-6":"R-LOCK/poolalias","C09-6":"R-SYM/commentkind","C10-6":"R-LOCK/L5",
+ "C11-6":"R-PANIC/P2g","C12-6":"R-PROV/V2s","C13-6":"R-PROV/exportscope","C14-6":"R-DET/N1","C15-6":"R-SYM/S5v",
+ "C16-6":"R-FLOW/closure","C17-6":"R-FLOW/required","C18-6":"R-ERR/E4u","C19-6":"R-CONST/disjoint","C20-6":"R-PANIC/P2",
+ "C16-4":"R-SYM/entityref",
 }
 # seeds kept on record that no rule is meant to see (see DESIGN.md §10.4): not part of the self-test
-UNCOVERED={"C09-4","C16-4","C19-4"}
+UNCOVERED={"C09-4","C19-4"}
 for d in sorted(glob.glob(f"{ROOT}/seeded/C*")):
     sid=os.path.basename(d); p=sid.split("-")[0]
     if sid in UNCOVERED:
